@@ -16,7 +16,9 @@ LEVEL = "fault_enumeration"
 RULE = ("seed messages (CER, CEA, DWR, DPR, an S6a ULR with a 3-level vendor Grouped AVP, a 2-message stream) "
         "built by the reference encoder x faults: every truncation point; every length field (Message Length, "
         "every AVP Length at every nesting level) x {0..40, true-8..true+8, len, len+1, 2*len+8, powers of two, "
-        "2^24-1}; every single byte x {00, ff, ^01, ^80}; typed-data faults for every data type; the empty "
+        "2^24-1}; every single byte x {00, ff, ^01, ^80}; typed-data faults for every dictionary class; every data "
+        "width 0..17, 20, 32 x 6 fill patterns on one class of each data type; Grouped AVPs (4 kinds) nested to "
+        "depths 1..12 and 30 depths up to 4096 (thorough: every depth 301..399 and up to 262144); the empty "
         "stream; all 1- and 2-byte strings (thorough) / boundary ones (quick); 4..19-byte boundary patterns; "
         "thorough adds every 24-bit value on the Message Length and on the first AVP Length of a DWR. A case is "
         "one byte string; distinct by construction (duplicates removed); non-trivial = every string that differs "
@@ -188,6 +190,34 @@ def fault_cases(tier):
             one = refcodec.enc_avp((code, flags, vendor, d))
             yield from emit(f"typed-{t}", "avp", one)
             yield from emit(f"typed-{t}", "message", refcodec.enc_msg(hdr + ([(code, flags, vendor, d)],)))
+    # every data width 0..17, 20, 32 x fill pattern, on one representative class of each data type
+    reps = {}
+    for e in absavp.REFDICT:
+        reps.setdefault(e["type"], e)
+    for t, e in sorted(reps.items()):
+        for width in list(range(0, 18)) + [20, 32]:
+            for fill in (b"\x00", b"\xff", b"\x01", b"\x80", b"\x7f", bytes(range(1, 33))):
+                d = (fill * 32)[:width]
+                for vflagged in ((e["code"], e["flags"], e["vendor"], d),):
+                    yield from emit(f"width-{t}", "avp", refcodec.enc_avp(vflagged))
+                    yield from emit(f"width-{t}", "message", refcodec.enc_msg(hdr + ([vflagged],)))
+    # Grouped AVPs nested to every depth 1..12 and to depths around and far beyond the interpreter's
+    # recursion limit (each level of nesting costs the decoder a few Python frames)
+    depths = list(range(1, 13)) + [16, 32, 64, 128, 200, 256, 300, 320, 330, 331, 332, 333, 334, 335, 340, 400, 512,
+                                   700, 1000, 1024, 2000, 4096]
+    if tier == "thorough":
+        depths += list(range(301, 400)) + [8192, 16384, 65536, 262144]
+    for gcode, gflags, gvendor in ((279, 0x40, None), (260, 0x40, None), (1400, 0xc0, 10415), (9999, 0x00, None)):
+        for depth in sorted(set(depths)):
+            d = b""
+            hl = 12 if gvendor is not None else 8
+            if hl * depth + 20 >= 2 ** 24:
+                continue
+            for _ in range(depth):
+                d = gcode.to_bytes(4, "big") + bytes([gflags]) + (hl + len(d)).to_bytes(3, "big") + \
+                    (gvendor.to_bytes(4, "big") if gvendor is not None else b"") + d
+            yield from emit("deep-nesting", "avp", d)
+            yield from emit("deep-nesting", "message", b"\x01" + (20 + len(d)).to_bytes(3, "big") + b"\x80\x00\x01\x3c" + bytes(12) + d)
     # garbage
     yield from emit("garbage", "message", b"")
     yield from emit("garbage", "avp", b"")
